@@ -72,7 +72,7 @@ class Frame:
 
         self.fault.tick()
         for l in self.lines:
-            yield Text(l, overflow="crop", no_wrap=True)
+            yield Text(l, overflow="ignore", no_wrap=True)   # the text does not shorten itself: cropping to the screen width is the display's job
 
 
 def make_consoles(W, H):
@@ -91,14 +91,16 @@ def text_lines():
 
 
 def frame_lines(maxh):
-    marker = st.integers(0, 99).map(lambda i: "F%02d" % i)
+    # some frame lines are longer than any screen (they are cropped to the width when the frame is drawn)
+    marker = st.one_of(st.integers(0, 99).map(lambda i: "F%02d" % i), st.integers(0, 99).map(lambda i: "F%02d" % i), st.integers(0, 99).map(lambda i: "F%02d" % i + "=" * 70))
     return st.one_of(st.lists(marker, min_size=0, max_size=3), st.lists(marker, min_size=0, max_size=maxh))
 
 
 def live_ops(H, tall):
     fl = frame_lines(H + 3 if tall else H)
+    uncropped = st.tuples(st.just("print"), st.lists(st.sampled_from(WORDS), min_size=1, max_size=1), st.sampled_from([{"soft_wrap": True}, {"crop": False}, {"soft_wrap": True, "crop": False}]))
     return st.one_of(
-        st.tuples(st.just("print"), text_lines()), st.tuples(st.just("print"), text_lines()), st.tuples(st.just("log"), st.sampled_from(WORDS)),
+        st.tuples(st.just("print"), text_lines()), st.tuples(st.just("print"), text_lines()), st.tuples(st.just("log"), st.sampled_from(WORDS)), uncropped,
         st.tuples(st.just("update"), fl, st.booleans()), st.tuples(st.just("update"), fl, st.booleans()), st.tuples(st.just("refresh")),
         st.tuples(st.just("stdout"), st.sampled_from(["out one\n", "a\nb\n", "partial", "tail\n"])), st.tuples(st.just("stop")), st.tuples(st.just("start")),
     ).map(list)
@@ -299,6 +301,12 @@ class Runner:
                 printed_text = ""   # print() without arguments: one empty line
                 d.console.print()
                 self.twin.print()
+            elif name == "print" and len(op) > 2 and op[2]:
+                # a print that is neither wrapped nor cropped (soft_wrap / crop=False); the text itself is short
+                printed_text = op[1][0][:8]
+                d.console.print(printed_text, **op[2])
+                self.twin.print(printed_text, **op[2])
+                self.ctx.cls("print-uncropped")
             elif name == "print":
                 printed_text = "\n".join(op[1])
                 d.console.print(printed_text)
@@ -620,6 +628,8 @@ class Faults(Part):
         d = r.display
         if name == "print" and not op[1]:
             d.console.print()
+        elif name == "print" and len(op) > 2 and op[2]:
+            d.console.print(op[1][0][:8], **op[2])
         elif name == "print":
             d.console.print("\n".join(op[1]))
         elif name == "log":
